@@ -231,7 +231,18 @@ impl<P: MalachiteCtxParams> Ctx for MalachiteCtx<P> {
         NaturalX::new(num)
     }
     fn rnd_plaintext(&self) -> Self::P {
-        NaturalP(self.rnd_exp().0)
+        // the plaintext space is 0..=q-2: q-1 cannot be encoded
+        let seed = Self::get_seed();
+        let two: Natural = Natural::from(2u8);
+        let num = uniform_random_natural_inclusive_range(
+            seed,
+            Natural::from(0u8),
+            &self.params.exp_modulus().0 - two,
+        )
+        .next()
+        .expect("impossible: uniform_random_natural_inclusive_range implementation never returns None");
+
+        NaturalP(num)
     }
 
     fn encode(&self, plaintext: &Self::P) -> Result<Self::E, StrandError> {
